@@ -1,5 +1,6 @@
 SPECIFICATION Spec
 CONSTANT MaxChunks = 3
+CONSTANT Flips = TRUE
 INVARIANT RoundTrip
 INVARIANT Total
 CHECK_DEADLOCK FALSE
